@@ -83,6 +83,8 @@ func (def *mapAsList) deleteByKey(r node.ListRequest) error {
 	}
 	keyVal := reflect.ValueOf(r.Key[0].Value())
 	def.src.SetMapIndex(keyVal, reflect.ValueOf(nil))
+	// the rows have changed
+	def.index = nil
 	return nil
 }
 
@@ -109,5 +111,7 @@ func (def *mapAsList) newListItem(r node.ListRequest) (reflect.Value, error) {
 	}
 	keyVal := reflect.ValueOf(r.Key[0].Value())
 	def.src.SetMapIndex(keyVal, itemVal)
+	// the rows have changed
+	def.index = nil
 	return itemVal, nil
 }
